@@ -57,7 +57,8 @@ try:
         caught = {}
         for c in checks:
             t0 = time.time()
-            cr = subprocess.run(["/verif/check", c, "--tier", tier], cwd="/verif", capture_output=True, text=True,
+            home = os.environ.get("JSVERIF_CHECK_HOME", "/verif")   # a snapshot of /verif may be used
+            cr = subprocess.run([home + "/check", c, "--tier", tier], cwd=home, capture_output=True, text=True,
                                 env=dict(os.environ, JSVERIF_REPO=str(repo), PYTHONPATH=str(repo),
                                          JSVERIF_EVIDENCE_DIR=str(scratch / "evidence"),
                                          JSVERIF_REPLAY_DIR=str(scratch / "replays")), timeout=7200)
